@@ -82,6 +82,20 @@ def check_case(ctx, case):
     if c2.seq != c1.seq or denot(c2.feats, n) != denot(c1.feats, n) or \
             two.letter_annotations.get("track") != one.letter_annotations.get("track"):
         ctx.fail("(r >> {}) >> {} differs from r >> {}".format(k, k2, k + k2), case)
+    left = rec << k2
+    ltr = left.letter_annotations.get("track")
+    if str(left.seq) != gen.rot(wd, -k2) or ltr is None or any(ltr[(i - k2) % n] != track[i] for i in range(n)):
+        ctx.fail("record << {}: sequence or per-letter annotation track not rotated to the left together: {} / {} from {} / {}".format(
+            k2, str(left.seq), ltr, wd, track), case)
+    if denot(impl.canon_record(left).feats, n) != shifted(d_in, -k2, n):
+        ctx.fail("after << {} some feature is not attached to the same nucleotides".format(k2), case)
+    bare = impl.mk_record(CRec(7, wd, [], []), track=track)        # no feature table at all
+    for kk3 in (k, -k2):
+        b2 = bare >> kk3 if kk3 == k else bare << k2
+        want = [track[(i - (k if kk3 == k else -k2)) % n] for i in range(n)]
+        if list(b2.letter_annotations.get("track", [])) != want:
+            ctx.fail("a record without features: per-letter track not rotated with the sequence ({} {})".format(
+                ">>" if kk3 == k else "<<", k if kk3 == k else k2), case)
     back = impl.canon_record((rec >> k) << k)
     if back.seq != wd or denot(back.feats, n) != d_in:
         ctx.fail("(r >> {}) << {} is not r".format(k, k), case)
